@@ -238,6 +238,10 @@ func (in *instr) hasFSOp(n ast.Node) bool {
 			if r, name, ok := in.methodOn(v.Fun); ok && r == "bufio.Writer" && bufMethods[name] {
 				found = true
 			}
+			// the terminal: a write to standard output is a blocking system call
+			if p, name, ok := in.pkgFunc(v.Fun); ok && p == "fmt" && (name == "Print" || name == "Println" || name == "Printf") {
+				found = true
+			}
 			if p, name, ok := in.pkgFunc(v.Fun); ok && len(v.Args) > 0 &&
 				((p == "fmt" && strings.HasPrefix(name, "Fprint")) || (p == "io" && (name == "WriteString" || name == "Copy" || name == "CopyN" || name == "CopyBuffer"))) {
 				if t := in.info.TypeOf(v.Args[0]); t != nil {
@@ -296,6 +300,14 @@ func (in *instr) pre(c *astutil.Cursor) bool {
 		v.Body = append([]ast.Stmt{in.yield(v, "/case")}, v.Body...)
 		in.changed = true
 	case *ast.SelectorExpr:
+		// os.Stdin in the prompt package -> verifsim.Stdin(): the user's answer is
+		// a scheduling point (and can be held back: the user thinks)
+		if p, name, ok := in.pkgFunc(v); ok && p == "os" && name == "Stdin" && strings.HasSuffix(in.pkg.PkgPath, "/internal/io/prompt") {
+			c.Replace(simCall("Stdin"))
+			in.useSim, in.changed = true, true
+			stats["rewrite.stdin"]++
+			return false
+		}
 		// dlog.Common -> dlog.VerifCommon()
 		if p, name, ok := in.pkgFunc(v); ok && strings.HasSuffix(p, "/internal/io/dlog") && name == "Common" {
 			c.Replace(&ast.CallExpr{Fun: &ast.SelectorExpr{X: v.X, Sel: ast.NewIdent("VerifCommon")}})
@@ -388,10 +400,22 @@ func (in *instr) pre(c *astutil.Cursor) bool {
 						c.InsertBefore(in.yield(v, "/lock"))
 						c.InsertAfter(simStmt("LockAcquired"))
 						in.changed, in.useSim = true, true
+						if recv == "sync.Mutex" && name == "Lock" {
+							// cooperative mutex: a contended Lock parks in the simulator
+							// instead of blocking in the runtime (a goroutine blocked on a
+							// sync.Mutex is not durably blocked for synctest)
+							ce.Args = []ast.Expr{in.mutexPtr(ce.Fun), in.site(v, "/lockwait")}
+							ce.Fun = &ast.SelectorExpr{X: ast.NewIdent("verifsim"), Sel: ast.NewIdent("MutexLock")}
+							stats["rewrite.mutex"]++
+						}
 						return true
 					case (recv == "sync.Mutex" || recv == "sync.RWMutex") && (name == "Unlock" || name == "RUnlock"):
 						c.InsertBefore(simStmt("LockReleasing"))
 						in.changed, in.useSim = true, true
+						if recv == "sync.Mutex" && name == "Unlock" {
+							ce.Args = []ast.Expr{in.mutexPtr(ce.Fun)}
+							ce.Fun = &ast.SelectorExpr{X: ast.NewIdent("verifsim"), Sel: ast.NewIdent("MutexUnlock")}
+						}
 						return true
 					case recv == "sync.WaitGroup" && name == "Wait":
 						c.InsertBefore(in.yield(v, "/wait"))
@@ -423,6 +447,10 @@ func (in *instr) pre(c *astutil.Cursor) bool {
 			(recv == "sync.Mutex" || recv == "sync.RWMutex") && (name == "Unlock" || name == "RUnlock") {
 			c.InsertAfter(&ast.DeferStmt{Call: simCall("LockReleasing")})
 			in.changed, in.useSim = true, true
+			if recv == "sync.Mutex" && name == "Unlock" {
+				v.Call.Args = []ast.Expr{in.mutexPtr(v.Call.Fun)}
+				v.Call.Fun = &ast.SelectorExpr{X: ast.NewIdent("verifsim"), Sel: ast.NewIdent("MutexUnlock")}
+			}
 		}
 	}
 	return true
@@ -480,6 +508,18 @@ func isCompound(st ast.Stmt) bool {
 		return true
 	}
 	return false
+}
+
+// mutexPtr returns an expression of type *sync.Mutex for the receiver of a
+// Lock/Unlock method expression (x.mu.Lock -> &x.mu; p.Lock with p a pointer -> p).
+func (in *instr) mutexPtr(fun ast.Expr) ast.Expr {
+	se := fun.(*ast.SelectorExpr)
+	if t := in.info.TypeOf(se.X); t != nil {
+		if _, isPtr := t.Underlying().(*types.Pointer); isPtr {
+			return se.X
+		}
+	}
+	return &ast.UnaryExpr{Op: token.AND, X: se.X}
 }
 
 func (in *instr) fsYield(n ast.Node) ast.Stmt {
